@@ -97,6 +97,12 @@ def gen_world(args, scratch):
             probs += libsound.check_precheck(d, compl, snap, nround, random.Random(int(args.get('oracle_seed', 1)) + 1), stats=stats)
         out['probs'] = [list(map(str, p)) for p in probs if p[0] != 'inconclusive'][:10]
         out['sig'] = libsound.classify(probs)
+        # one signature per KIND of problem (first instance each): a listed finding of one kind must not hide another kind
+        seen_k, out['kind_sigs'] = set(), []
+        for p_ in probs:
+            if p_[0] != 'inconclusive' and p_[0] not in seen_k:
+                seen_k.add(p_[0])
+                out['kind_sigs'].append(libsound.classify([p_]))
         out['stats'] = stats
         try:
             out['nfun'] = stats.get('functions')
